@@ -728,6 +728,7 @@ fn write_project(rng: &mut Rng, dir: &Path) -> Vec<String> {
         for i in 0..230 {
             s += &format!("fn f{i}() {{\n    let v = {i};\n}}\n");
         }
+        std::fs::create_dir_all(dir.join("src")).unwrap();
         std::fs::write(dir.join("src/wide_warn.rs"), s).unwrap();
     }
     let reason = rng.pick(REASONS).replace('\\', "\\\\").replace('"', "\\\"").replace('\n', "\\n");
